@@ -1403,7 +1403,7 @@ type c18Repro struct {
 }
 
 func cmdC18(seed int64, tier, outDir string) {
-	nx, nh := 700, 500
+	nx, nh := 450, 350
 	if tier == "thorough" {
 		nx, nh = 20000, 12000
 	}
